@@ -251,6 +251,51 @@ fn env_pattern(shape: u8, s: usize) -> u8 {
     }
 }
 
+/// A write to R13 restarts the envelope with the shape in its low four bits, whatever byte is written
+/// and whatever the generator was doing: parked at the top or the bottom of a finished one-shot shape,
+/// or in the middle of a ramp of a repeating one.
+fn env_restart_case(ym: bool, prev: u8, wait: usize, value: u8) -> Result<u64, Fail> {
+    guarded("envelope-restart:write_register/tick", || {
+        let epu = 3usize;
+        let mut ay = chip(ym, 0, 44100);
+        ay.write_register(7, 0x3F);
+        ay.write_register(8, 0x10);
+        ay.write_register(11, epu as u8);
+        ay.write_register(12, 0);
+        ay.write_register(13, prev);
+        for _ in 0..wait {
+            ay.verif_tick();
+        }
+        let before = ay.verif_levels().2;
+        ay.write_register(13, value);
+        let n = 80 * epu;
+        let mut levels: Vec<u8> = Vec::with_capacity(n);
+        for _ in 0..n {
+            ay.verif_tick();
+            levels.push(ay.verif_levels().2 as u8);
+        }
+        // the phase of the step grid relative to the write is not judged (0..=EP)
+        let ok = (0..=epu).any(|ph| (0..n).all(|t| levels[t] == env_pattern(value, (t + ph) / epu)));
+        if !ok {
+            let seq: Vec<u8> = (0..40).map(|s| levels[s * epu + epu / 2]).collect();
+            return Err((
+                format!("C18:env:restart-on-r13-write:{}", if value & 0xF0 == 0 { "plain-shape-byte" } else { "byte-with-high-bits" }),
+                format!(
+                    "envelope at level {} (R13={:02x} written {} ticks earlier, EP=3), then R13={:02x} written: the levels at mid-step are {:?}, shape {} restarted gives {:?}",
+                    before,
+                    prev,
+                    wait,
+                    value,
+                    seq,
+                    value & 0x0F,
+                    (0..40).map(|s| env_pattern(value, s)).collect::<Vec<_>>()
+                ),
+            ));
+        }
+        Ok(fnv_mix(fnv(&[0xE5]), (value as u64) << 8 | before as u64))
+    })
+}
+
 const ENV_STEPS: usize = 100;
 
 fn env_case(ym: bool, shape: u8, ep: u16, verbose: bool) -> Result<u64, Fail> {
@@ -572,6 +617,24 @@ fn core_checks(ctx: &Ctx, col: &Collector) {
         ctx.add_eval(1);
     });
     ctx.note("core_envelope_cases", json!(env_jobs.len()));
+    // restart: every byte written to R13 over four earlier envelope states x two chip types
+    let mut rjobs: Vec<(bool, u8, usize, u8)> = Vec::new();
+    for ym in [false, true] {
+        for (prev, wait) in [(0x0Du8, 400usize), (0x09, 400), (0x08, 50), (0x0E, 131)] {
+            for v in 0..=255u8 {
+                rjobs.push((ym, prev, wait, v));
+            }
+        }
+    }
+    par_for(rjobs.len(), 16, |i| {
+        let (ym, prev, wait, v) = rjobs[i];
+        match env_restart_case(ym, prev, wait, v) {
+            Ok(h) => ctx.outcome(h),
+            Err(f) => col.fail((14, v as u64, (prev as u64) << 1 | ym as u64), &f.0, &f.1, || json!({"kind":"env-restart","ym":ym,"prev":prev,"wait":wait,"value":v})),
+        }
+        ctx.add_eval(1);
+    });
+    ctx.note("core_envelope_restart_cases", json!(rjobs.len()));
     // mixer
     par_for(3 * 256, 4, |i| {
         let (ch, r7) = (i / 256, (i % 256) as u8);
@@ -1458,7 +1521,7 @@ pub fn run(tier: Tier, seed: u64, replay: Option<String>) -> i32 {
     ctx.sample(json!({"part":"hist","example": ops_json(&[Op::W(7, 0x0F), Op::G(7), Op::W(13, 0x0F), Op::G(1000)])}));
     col.flush(&ctx);
     ctx.finish(
-        "E-PROD + E-BFS. Core (chip tick = f_clk/8, hooks verif_tick/verif_levels): all 4096 tone period values (incl. 0) x 3 channels: toggle count and exact half period on the raw output; R6 values: noise clock count and interval; 16 shapes x EP {1,2,3,255,256,4095,65535} x 100 steps against the documented ramp pattern (constant phase free), amplitude monotone in level; all 256 R7 values x 3 channels against (tone|off)&(noise|off) built from measured tone-only/noise-only waves; all 256 volume register values x 3 channels x AY/YM; 7 stereo modes x 3 channels x AY/YM. API: 12 sample rates x 4 programmes finite and |s|<=4; tone frequency from threshold crossings within 1 %. Histories: every sequence of <=3 operations over 99 ops (16 registers x {00,01,0F,10,1F,FF}, generate 1/7/1000) and of <=4 (quick) / <=5 (thorough) over a 24-op reduced alphabet, each replayed on a fresh chip: no panic, samples bounded, then 1024 (quick) / 2048 (thorough) chip ticks judged against the final register file (half periods, noise clock, envelope grid, gated output sum) and write-only R13-free histories against register-order writing. Ports: 256 select values x data alphabet x {48K+AY,128K} through CPU-executed OUT/IN; port-to-chip forwarding: scripts of register writes made through the ports at frame starts (the same shape value re-written for all 16 shapes, every register re-written with its own value through select aliases, one change per frame, registers 14/15) x {48K+AY,128K} x {8000, 22050 Hz}: every audio sample of every frame must equal (1e-5) that of an AY or YM AymPrecise, with or without DC filter, fed exactly those writes. states = distinct post-history core behaviours; distinct = outcome digests",
+        "E-PROD + E-BFS. Core (chip tick = f_clk/8, hooks verif_tick/verif_levels): all 4096 tone period values (incl. 0) x 3 channels: toggle count and exact half period on the raw output; R6 values: noise clock count and interval; 16 shapes x EP {1,2,3,255,256,4095,65535} x 100 steps against the documented ramp pattern (constant phase free), amplitude monotone in level; all 256 byte values written to R13 over four earlier envelope states (parked high, parked low, mid-sawtooth, mid-triangle) x AY/YM: the shape in the low four bits restarts; all 256 R7 values x 3 channels against (tone|off)&(noise|off) built from measured tone-only/noise-only waves; all 256 volume register values x 3 channels x AY/YM; 7 stereo modes x 3 channels x AY/YM. API: 12 sample rates x 4 programmes finite and |s|<=4; tone frequency from threshold crossings within 1 %. Histories: every sequence of <=3 operations over 99 ops (16 registers x {00,01,0F,10,1F,FF}, generate 1/7/1000) and of <=4 (quick) / <=5 (thorough) over a 24-op reduced alphabet, each replayed on a fresh chip: no panic, samples bounded, then 1024 (quick) / 2048 (thorough) chip ticks judged against the final register file (half periods, noise clock, envelope grid, gated output sum) and write-only R13-free histories against register-order writing. Ports: 256 select values x data alphabet x {48K+AY,128K} through CPU-executed OUT/IN; port-to-chip forwarding: scripts of register writes made through the ports at frame starts (the same shape value re-written for all 16 shapes, every register re-written with its own value through select aliases, one change per frame, registers 14/15) x {48K+AY,128K} x {8000, 22050 Hz}: every audio sample of every frame must equal (1e-5) that of an AY or YM AymPrecise, with or without DC filter, fed exactly those writes. states = distinct post-history core behaviours; distinct = outcome digests",
         all_parts,
         &[
             "tone/noise phase, exact analog sample values and the +-1 counting convention are not judged",
@@ -1481,6 +1544,7 @@ fn replay_case(path: &str) -> i32 {
         "tone" => tone_case(u("ch") as usize, u("tp") as u16, u("high") as u8, true).map(|_| ()),
         "noise" => noise_case(u("np") as u8, true).map(|_| ()),
         "env" => env_case(b("ym"), u("shape") as u8, u("ep") as u16, true).map(|_| ()),
+        "env-restart" => env_restart_case(b("ym"), u("prev") as u8, u("wait") as usize, u("value") as u8).map(|_| ()),
         "mixer" => mixer_case(u("ch") as usize, u("r7") as u8, true).map(|_| ()),
         "volume" => volume_case(b("ym"), u("ch") as usize, true).map(|_| ()),
         "pan" => pan_case(b("ym"), u("mode") as u8, u("ch") as usize, true).map(|_| ()),
